@@ -1391,10 +1391,14 @@ std::vector<std::string> Kernel::list_dir(const std::string &path) {
     std::string rp;
     if (!resolve(path, true, rp)) return r;
     std::string prefix = rp == "/" ? "/" : rp + "/";
+    // in creation (inode) order: names may embed process-wide counters of the code under test, which must not decide any order
+    std::vector<std::pair<uint64_t, std::string>> ents;
     for (auto &kv : fs) {
         if (kv.first.size() > prefix.size() && kv.first.compare(0, prefix.size(), prefix) == 0 && kv.first.find('/', prefix.size()) == std::string::npos)
-            r.push_back(kv.first.substr(prefix.size()));
+            ents.emplace_back(kv.second.ino, kv.first.substr(prefix.size()));
     }
+    std::sort(ents.begin(), ents.end());
+    for (auto &e : ents) r.push_back(e.second);
     return r;
 }
 
